@@ -7,15 +7,21 @@ from collections import Counter
 from .common import Ctx, Driver, rng_for
 
 MANIFEST = dict(
-    text=("Lean theorems, for every input and every codec oracle (codecs.lookup / strict decode / replace decode are parameters): "
+    text=("Lean theorems, for every input and every codec oracle (codecs.lookup / strict decode / replace decode / the chardet guess are parameters): "
           "the EncodingDetector.encodings generator with its mutable `tried` set yields exactly the documented candidate list "
-          "(known definite, BOM, user, declared, utf-8, windows-1252; minus excluded; each once ignoring case); UnicodeDammit's result is "
-          "the strict decoding of the BOM-stripped bytes under the first candidate that decodes, original_encoding its resolved codec "
-          "name; contains_replacement_characters iff no candidate decodes strictly and a non-ascii one decodes with replacement; BOM table; "
-          "str pass-through; UTF-8 default; every (codec, mode) attempted at most once; declared_html_encoding = the declaration found in "
-          "the BOM-stripped bytes (well-formed <meta charset>, <meta content> and <?xml encoding?> shapes proved; the general regex matcher "
-          "is validated by correspondence only). Tie: grid texts x codecs x BOMs x declarations x declared-name classes x "
-          "known/user/exclude/from_encoding arguments through the three entry points, real codecs tabulated per case."),
+          "(known definite, BOM, user, declared, chardet, utf-8, windows-1252; minus excluded; each once ignoring case; also for str markup); "
+          "UnicodeDammit's result is the strict decoding of the BOM-stripped bytes under the first candidate that decodes, original_encoding its "
+          "resolved codec name (find_codec spelled out); contains_replacement_characters iff no candidate decodes strictly and a non-ascii one "
+          "decodes with replacement, and which candidate wins that pass; the result always comes from a candidate; for lawful codecs (laws are "
+          "hypotheses, tested per case) a text always exists unless both last-ditch encodings are excluded and prepare_markup never rejects; "
+          "BOM table for every payload; str pass-through; UTF-8 whenever every present indication says UTF-8; every (codec, mode) attempted at most "
+          "once. Declaration regexes: the two patterns are DATA generated from the live sources through re._parser; Rx.search mirrors re's "
+          "backtracking on that fragment; PROVED: regex search over the generated patterns (bytes) = the hand-written matcher used by the model, "
+          "on every input; well-formed <meta charset>, <meta content>, <?xml encoding?> declarations inside the window are found (general shapes); "
+          "nothing is found without the markers; the result does not depend on anything after the window (both flavours). "
+          "Tie: grid texts x codecs x BOMs x declarations x declared-name classes x known/user/exclude/from_encoding/chardet arguments through "
+          "UnicodeDammit, EncodingDetector (bytes and str), prepare_markup and the BeautifulSoup constructor, real codecs tabulated per case; window "
+          "sweeps with an independent oracle; token soups (bytes, str); random patterns of the fragment versus Python's re; argument forms; history."),
     design="7/C07",
     note=("Model mirrors the repaired code (fixes/C07-*.diff; encoding arguments are lists). The chardet step is a parameter (absent in this environment; "
           "exercised through a stand-in module). Encoding names are ASCII. smart_quotes_to=None. tried_encodings and warning texts are not compared. "
@@ -1243,7 +1249,11 @@ def run(ctx: Ctx):
                 "known_definite/override/user/exclude/is_html arguments, run through UnicodeDammit, EncodingDetector.encodings and (when the arguments can be "
                 "expressed there) the BeautifulSoup constructor; non-trivial = the result is not simply 'first candidate utf-8 decodes': a later candidate wins, "
                 "or a non-utf-8 candidate wins, or the replace pass / rejection is reached")
-    ctx.assumptions = ["no chardet / cchardet / charset_normalizer installed (chardet_module is None) — that step of the documented order is absent",
+    ctx.assumptions = ["no chardet / cchardet / charset_normalizer is installed; the chardet step of the order is exercised through a stand-in module "
+                       "assigned to bs4.dammit.chardet_module for the duration of a call (12% of the grid cases)",
+                       "Rx.search (Lean) = CPython's re on the supported fragment: tied by the rx stream (random patterns x subjects, bytes and str), not proved",
+                       "the codec laws the totality theorems assume (lookup ignores case; utf-8 / windows-1252 exist and decode with errors='replace' "
+                       "without failing) are tested on every case's data (distribution keys law:*)",
                        "encoding names are ASCII strings (str.lower() is modelled on ASCII letters)",
                        "smart_quotes_to=None (the substitution hook of _convert_from is property C19's)",
                        "int(len(markup) * 0.05) = len(markup) // 20 for the document sizes used",
